@@ -2,6 +2,15 @@ package main
 
 func dispatchMore(mode string, lines []string) bool {
 	switch mode {
+	case "bag":
+		runBag(lines)
+		return true
+	case "compress":
+		runCompress(lines)
+		return true
+	case "ros1msg":
+		runRos1Msg(lines)
+		return true
 	case "parse":
 		runParse(lines)
 		return true
